@@ -352,7 +352,9 @@ def case_pred(ctx, cfg):
     if kind in ("is_perpendicular:lines2d", "is_parallel:lines2d"):
         H = [h for h in lattice(3, 1) if any(h[:2])]
         # + pairs that are nearly (1e-3, 1e-4 rad) but not exactly parallel / perpendicular, and exactly so with large entries
-        near = [((1000, 1, 0), (1000, 0, 3)), ((1000, 1, 0), (0, 1, 2)), ((1000, 1, 2), (-1, 1000, 0)), ((1000, 1, 2), (-1, 999, 0)), ((1000, 999, 0), (1000, 1000, 1)), ((10000, 1, 5), (1, 0, 0)), ((10000, 1, 5), (-1, 10000, 0)), ((1, 1, 0), (1000, -999, 4)), ((1, 1, 0), (-1000, 1000, 4)), ((3000, 4000, 1), (4000, -3000, 7)), ((3000, 4000, 1), (4001, -3000, 7))]
+        near = [((1000, 1, 0), (1000, 0, 3)), ((1000, 1, 0), (0, 1, 2)), ((1000, 1, 2), (-1, 1000, 0)), ((1000, 1, 2), (-1, 999, 0)), ((1000, 999, 0), (1000, 1000, 1)), ((10000, 1, 5), (1, 0, 0)), ((10000, 1, 5), (-1, 10000, 0)), ((1, 1, 0), (1000, -999, 4)), ((1, 1, 0), (-1000, 1000, 4)), ((3000, 4000, 1), (4000, -3000, 7)), ((3000, 4000, 1), (4001, -3000, 7)),
+                # lines far from the origin (distance about 800) that meet at about half a degree, and parallel ones out there
+                ((1, -2, 1800), (51, -100, 89500)), ((50, -100, 90000), (51, -100, 89500)), ((1, -2, 1800), (2, -4, 7)), ((1, -2, 1800), (-3, 6, 5500)), ((100, 1, -90000), (100, 2, -90000))]
         for h1, h2 in list(itertools.product(H, repeat=2)) + near + [(b, a) for a, b in near]:
             if X.irank([list(h1), list(h2)]) < 2:
                 continue
@@ -368,6 +370,27 @@ def case_pred(ctx, cfg):
             if e is not None or bool(r) != want:
                 ctx.fail(kind, kind, {"l": h1, "m": h2}, want, e if e is not None else bool(r))
                 return
+        # lines far from the origin given through two points each (join normalises their coordinates, so the entries that
+        # carry the direction are of size 1e-3): about half a degree apart, exactly parallel, exactly perpendicular
+        far = [
+            (((0, 900), (200, 1000)), ((0, -800), (200, -698)), False, False),
+            (((0, 900), (200, 1000)), ((0, -800), (200, -700)), True, False),
+            (((0, 900), (200, 1000)), ((500, -800), (400, -600)), False, True),
+            (((900, 0), (901, 300)), ((-700, 10), (-700, 310)), False, False),
+            (((900, 0), (900, 300)), ((-700, 10), (-700, 310)), True, False),
+        ]
+        for (p1, p2), (q1, q2), par, perp in far:
+            for order in (0, 1):
+                l = G.Line(G.Point(*p1), G.Point(*p2))
+                m = G.Line(G.Point(*q1), G.Point(*q2))
+                if order:
+                    l, m = m, l
+                want = perp if kind.startswith("is_perp") else par
+                r, e = ctx.call(G.is_perpendicular, l, m) if kind.startswith("is_perp") else ctx.call(l.is_parallel, m)
+                ctx.trace()
+                if e is not None or bool(r) != want:
+                    ctx.fail(kind + ":far-from-origin", kind, {"l": [p1, p2], "m": [q1, q2], "swapped": bool(order)}, want, e if e is not None else bool(r))
+                    return
         # collections
         pairs = [(h1, h2) for h1, h2 in itertools.product(H, repeat=2) if X.irank([list(h1), list(h2)]) == 2]
         lc = G.LineCollection(np.array([p[0] for p in pairs], dtype=float))
@@ -384,10 +407,10 @@ def case_pred(ctx, cfg):
         return
     if kind in ("is_perpendicular:planes", "is_parallel:planes"):
         N = [n for n in lattice(3, 1)]
-        nearp = [((1000, 1, 0), (1000, 0, 0)), ((1000, 1, 0), (0, 0, 1)), ((1000, 1, 0), (-1, 1000, 0)), ((1000, 1, 0), (-1, 999, 5)), ((1, 1, 1000), (1, 1, 999)), ((1, 1, 1000), (1000, 0, -1)), ((1, 1, 1000), (1000, 1, -1)), ((2000, 2, 0), (1000, 1, 0)), ((3000, 0, 4000), (4000, 5, -3000))]
+        nearp = [((1000, 1, 0), (1000, 0, 0)), ((1000, 1, 0), (0, 0, 1)), ((1000, 1, 0), (-1, 1000, 0)), ((1000, 1, 0), (-1, 999, 5)), ((1, 1, 1000), (1, 1, 999)), ((1, 1, 1000), (1000, 0, -1)), ((1, 1, 1000), (1000, 1, -1)), ((2000, 2, 0), (1000, 1, 0)), ((3000, 0, 4000), (4000, 5, -3000)), ((1, -2, 0), (51, -100, 0)), ((1, -2, 0), (51, -100, 1)), ((1, -2, 0), (-2, 4, 0))]
         for n1, n2 in list(itertools.product(N, repeat=2)) + nearp + [(b, a) for a, b in nearp]:
             prop = X.irank([list(n1), list(n2)]) < 2
-            for c1, c2 in ((0, 0), (1, -1)):
+            for c1, c2 in ((0, 0), (1, -1), (180, 450)):
                 e1, e2 = G.Plane(np.array(list(n1) + [c1], dtype=float)), G.Plane(np.array(list(n2) + [c2], dtype=float) * 3)
                 if kind.startswith("is_perp"):
                     if prop:
